@@ -107,3 +107,45 @@ v("c11-sentinel-twin-dropped", "C11", "SENTINEL-TWINS", L + "visitor.py",
   "if result is BREAK or result is True:\n                    break", "if result is BREAK:\n                    break")
 v("c11-leaving-pop-guard", "C11", "POP-GUARD", L + "visitor.py",
   "        if is_leaving:\n            if path:\n                path_pop()", "        if is_leaving:\n            path_pop()")
+
+# -- C12 / C13 ----------------------------------------------------------------------------------
+V = "src/graphql/validation/"
+v("c12-unfix-cache-alias", "C12", "CACHE-ALIAS", V + "validation_context.py",
+  "usages = list(get_variable_usages(operation))", "usages = get_variable_usages(operation)")
+v("c12-spreads-cache-mutated", "C12", "CACHE-ALIAS", V + "validation_context.py",
+  "                for spread in get_fragment_spreads(visited_node):",
+  "                spreads_ = get_fragment_spreads(visited_node)\n                spreads_.sort(key=id)\n                for spread in spreads_:")
+v("c12-typeinfo-leave-missing-pop", "C12", "TYPEINFO-BALANCE", "src/graphql/utilities/type_info.py",
+  "    def leave_argument(self) -> None:\n        self._argument = None\n        del self._default_value_stack[-1:]\n",
+  "    def leave_argument(self) -> None:\n        self._argument = None\n")
+v("c12-typeinfo-conditional-push", "C12", "TYPEINFO-BALANCE", "src/graphql/utilities/type_info.py",
+  "        self._field_def_stack.append(field_def)\n        self._type_stack.append(",
+  "        if field_def:\n            self._field_def_stack.append(field_def)\n        self._type_stack.append(")
+v("c12-typeinfo-slot-not-reset", "C12", "TYPEINFO-BALANCE", "src/graphql/utilities/type_info.py",
+  "    def leave_enum_value(self) -> None:\n        self._enum_value = None", "    def leave_enum_value(self) -> None:\n        pass")
+v("c12-typeinfovisitor-leave-order", "C12", "TYPEINFO-BALANCE", "src/graphql/utilities/type_info.py",
+  "        result = fn(node, *args) if fn else None\n        self.type_info.leave(node)\n        return result",
+  "        self.type_info.leave(node)\n        result = fn(node, *args) if fn else None\n        return result")
+v("c12-limit-off-by-one", "C12", "LIMIT", V + "validate.py",
+  "        if len(errors) >= max_errors:\n            raise validation_aborted_error\n        errors.append(error)",
+  "        errors.append(error)\n        if len(errors) >= max_errors:\n            raise validation_aborted_error")
+v("c12-descriptions-traversed", "C12", "LIMIT", V + "validate.py",
+  'kind: tuple(key for key in keys if key != "description")', 'kind: tuple(key for key in keys if key != "descriptions")')
+v("c12-rule-mutates-node", "C12", "NO-WRITE", V + "rules/unique_operation_names.py",
+  "        operation_name = node.name\n", "        operation_name = node.name\n        object.__setattr__(node, 'directives', ())\n")
+v("c12-rule-writes-context", "C12", "NO-WRITE", V + "rules/known_fragment_names.py",
+  "        fragment_name = node.name.value\n", "        fragment_name = node.name.value\n        self.context._fragments = None\n")
+v("c12-rule-module-state", "C12", "NO-WRITE", V + "rules/unique_fragment_names.py",
+  "        self.known_fragment_names: dict[str, NameNode] = {}", "        self.known_fragment_names = _KNOWN", )
+VARIANTS[-1]["edits"].append({"file": V + "rules/unique_fragment_names.py", "old": "class UniqueFragmentNamesRule", "new": "_KNOWN: dict = {}\n\n\nclass UniqueFragmentNamesRule"})
+v("c12-rule-reads-loc", "C12", "NO-READ", V + "rules/unique_operation_names.py",
+  "                        f\" named '{operation_name.value}'.\",",
+  "                        f\" named '{operation_name.value}' (at {node.loc.start}).\",")
+v("c12-rule-class-level-state", "C12", "NO-WRITE", V + "rules/unique_operation_names.py",
+  "    def __init__(self, context: ASTValidationContext) -> None:\n        super().__init__(context)\n        self.known_operation_names: dict[str, NameNode] = {}",
+  "    known_operation_names: dict[str, NameNode] = {}\n\n    def __init__(self, context: ASTValidationContext) -> None:\n        super().__init__(context)")
+v("c13-rule-unregistered", "C13", "REGISTRY", V + "specified_rules.py",
+  "    ScalarLeafsRule,\n    FieldsOnCorrectTypeRule,", "    FieldsOnCorrectTypeRule,")
+v("c13-error-dropped", "C13", "ERROR-DISCIPLINE", V + "rules/known_fragment_names.py",
+  "            self.report_error(\n                GraphQLError(f\"Unknown fragment '{fragment_name}'.\", node.name)\n            )",
+  "            error = GraphQLError(f\"Unknown fragment '{fragment_name}'.\", node.name)")
